@@ -43,6 +43,9 @@ Qed.
 Definition plain_values (k : kind) (w : nat) (s : fmap) : Prop :=
   forall n g, flookup n s = Some g -> arg_in_go_range g /\ forall m, leaf_arg k w g <> Some (SX m).
 
+Definition plain_on (k : kind) (w : nat) (s : fmap) (xs : list slot) : Prop :=
+  forall n g, In (SX n) xs -> flookup n s = Some g -> arg_in_go_range g /\ forall m, leaf_arg k w g <> Some (SX m).
+
 Definition hits (s : fmap) (xs : list slot) : bool :=
   existsb (fun n => match flookup n s with Some _ => true | None => false end) (slot_vars xs).
 
@@ -116,8 +119,8 @@ Proof.
   apply andb_true_iff in Hva as [_ Hva]. apply andb_true_iff in Hnd as [_ Hnd]. rewrite Hva, Hnd. reflexivity.
 Qed.
 
-Theorem fill_leaf_composes k w xs s1 s2 ys :
-  fmt_ok k w -> Forall (slot_built k w) xs -> names_ok xs = true -> plain_values k w s1 ->
+Theorem fill_leaf_composes_on k w xs s1 s2 ys :
+  fmt_ok k w -> Forall (slot_built k w) xs -> names_ok xs = true -> plain_on k w s1 xs ->
   fill_leaf s1 k w xs = Some (ILeaf k w ys) ->
   fill_leaf s2 k w ys = fill_leaf (s1 ++ s2) k w xs.
 Proof.
@@ -142,14 +145,14 @@ Proof.
   apply andb_true_iff in Hc as [Hc Hny]. apply andb_true_iff in Hc as [Hw Hv].
   (* position by position: the second step on the result = the union on the original *)
   assert (K : Forall2 (fun x y => conv k w s2 y = conv k w (s1 ++ s2) x /\ slot_built k w y) xs ys).
-  { clear Em Hlen Hs Hh1 Hny. revert Hb Hv Hn. induction F2 as [|x y xs' ys' Hxy _ IH]; intros Hb Hv Hn; [constructor|].
+  { clear Em Hlen Hs Hh1 Hny. revert Hb Hv Hn Hp. induction F2 as [|x y xs' ys' Hxy _ IH]; intros Hb Hv Hn Hp; [constructor|].
     inversion Hb as [|? ? Hbx Hbr]; subst. cbn [forallb] in Hv. apply andb_true_iff in Hv as [Hvy Hvr].
     assert (Hn' : names_ok xs' = true) by (eapply names_ok_tail; exact Hn).
-    constructor; [|apply IH; assumption].
+    constructor; [|apply IH; try assumption; intros n0 g0 Hin0; apply Hp; right; exact Hin0].
     destruct x as [v|n].
     - rewrite (conv_sv k w s1 v Hbx) in Hxy. inversion Hxy; subst y. split; [reflexivity|exact Hbx].
     - destruct (flookup n s1) as [g|] eqn:El.
-      + rewrite (conv_sx_hit k w s1 n g El) in Hxy. destruct (Hp n g El) as [Hr Hnx].
+      + rewrite (conv_sx_hit k w s1 n g El) in Hxy. destruct (Hp n g (or_introl eq_refl) El) as [Hr Hnx].
         destruct y as [v'|m]; [|exfalso; apply (Hnx m); exact Hxy].
         assert (Hby : slot_built k w (SV v')) by (eapply leaf_arg_built; eassumption).
         split; [|exact Hby]. rewrite (conv_sv k w s2 v' Hby).
@@ -167,6 +170,14 @@ Proof.
   rewrite Hh12, <- Hm, Hlen, ?Hs.
   destruct (hits s2 ys) eqn:Hh2; [reflexivity|].
   rewrite (conv_identity k w s2 ys Hby Hny Hh2), Hw, Hv, Hny. reflexivity.
+Qed.
+
+Theorem fill_leaf_composes k w xs s1 s2 ys :
+  fmt_ok k w -> Forall (slot_built k w) xs -> names_ok xs = true -> plain_values k w s1 ->
+  fill_leaf s1 k w xs = Some (ILeaf k w ys) ->
+  fill_leaf s2 k w ys = fill_leaf (s1 ++ s2) k w xs.
+Proof.
+  intros Hf Hb Hn Hp. apply fill_leaf_composes_on; try assumption. intros n g _ Hl. exact (Hp n g Hl).
 Qed.
 
 Example compose_example :
